@@ -58,7 +58,12 @@ type SymPtr struct {
 	idx   *Term // width 64
 }
 
-type Chan struct{ id int }
+// Chan: channels exist only for the deferred-goroutine model (see goStmt):
+// close and receive are supported, sends are not.
+type Chan struct {
+	id     int
+	closed bool
+}
 
 type bad struct{}
 
